@@ -2,7 +2,7 @@
 import { Reporter, TIER, valueKind, sha } from "./common.mjs";
 import { familyPrograms, forEachCompiledParser, bFamily } from "./cases.mjs";
 import { render, skeleton } from "./spec.mjs";
-import { build, toSrc, universeFor, CYCLIC } from "./universe.mjs";
+import { build, toSrc, universeFor, CYCLIC, twoFaultValues } from "./universe.mjs";
 import { Prog } from "./ref.mjs";
 
 const MISSING = Symbol("missing");
@@ -177,11 +177,16 @@ export async function run() {
     [undefined, "default"],
     [{ disallowExtraProperties: true }, "strict"],
   ];
-  await forEachCompiledParser(progs, async ({ name, parser, spec0, refProg, U, text, client }) => {
+  await forEachCompiledParser(progs, async ({ name, parser, spec, spec0, refProg, U, text, client }) => {
     stats.parsers++;
     const skel = skeleton(spec0, refProg);
     const typeText = render(spec0);
-    for (const vx of [...U, ...CYCLIC])
+    let two = [];
+    try {
+      two = spec ? twoFaultValues(refProg, spec) : [];
+    } catch {}
+    stats.twoFaultValues = (stats.twoFaultValues || 0) + two.length;
+    for (const vx of [...U, ...CYCLIC, ...two])
       for (const [opts, oname] of OPTS) {
         const n = checkRejected({ rep, stats, parser, parserName: name, vx, typeText, skel, program: text, opts, oname, printErrors: client.err.printErrors });
         if (n) shapes.add(skel + ":" + n + ":" + oname);
